@@ -5,14 +5,16 @@
 -/
 import Driver.Base
 import Driver.Ops
+import Driver.P_Index
+import Driver.P_Iter
 
 namespace Meddly
 namespace Plugins
 open Funcs
 
-def specChain : List Ops.SpecFn := [Ops.specSet, Ops.specNumBasic]
+def specChain : List Ops.SpecFn := [PIndex.spec, PIter.spec, Ops.specSet, Ops.specNumBasic]
 
-def stepChain : List (St → Nat → List String → Option St) := []
+def stepChain : List (St → Nat → List String → Option St) := [PIndex.step, PIter.step]
 
 def spec (dom : Array Nat) (kindOf : Ops.KindOf) (op : String) (args : List (String × Spec.Table))
     (scalars : List (String × String)) : Except String Spec.Table :=
